@@ -175,8 +175,17 @@ func callZeroArgRotated(obj interface{}, rot int) string {
 	for k := 0; k < n; k++ {
 		i := (k + rot) % n
 		m := t.Method(i)
-		if m.Type.NumIn() != 1 || m.Type.NumOut() < 1 || strings.HasPrefix(m.Name, "Set") {
+		if m.Type.NumOut() < 1 || strings.HasPrefix(m.Name, "Set") {
 			continue
+		}
+		// zero-argument accessors, and methods whose parameters are all int / bool (first argument tuple of pureArgs)
+		var args []reflect.Value
+		if m.Type.NumIn() != 1 {
+			tuples := pureArgs(v.Method(i).Type())
+			if len(tuples) == 0 {
+				continue
+			}
+			args = tuples[0]
 		}
 		func() {
 			defer func() {
@@ -184,7 +193,7 @@ func callZeroArgRotated(obj interface{}, rot int) string {
 					parts = append(parts, m.Name+"=PANIC")
 				}
 			}()
-			res := v.Method(i).Call(nil)
+			res := v.Method(i).Call(args)
 			parts = append(parts, m.Name+"="+render(res[0], 0))
 		}()
 	}
